@@ -85,10 +85,14 @@ pub enum ErrKind {
     OsEio,
     OsEnospc,
     OsEisdir,
+    /// kind Other whose payload is itself an io::Error of kind Interrupted (what a
+    /// wrapping reader - a decompressor, a TLS stream - makes of an inner EINTR): an
+    /// error like any other, not an invitation to retry
+    WrapsInterrupted,
 }
 
 impl ErrKind {
-    pub const ALL: [ErrKind; 11] = [
+    pub const ALL: [ErrKind; 12] = [
         ErrKind::Other,
         ErrKind::BrokenPipe,
         ErrKind::UnexpectedEof,
@@ -100,6 +104,7 @@ impl ErrKind {
         ErrKind::OsEio,
         ErrKind::OsEnospc,
         ErrKind::OsEisdir,
+        ErrKind::WrapsInterrupted,
     ];
     fn os_code(self) -> Option<i32> {
         match self {
@@ -112,6 +117,9 @@ impl ErrKind {
     }
     /// The error value a reader returns for this kind.
     pub fn make(self, msg: &'static str) -> io::Error {
+        if self == ErrKind::WrapsInterrupted {
+            return io::Error::new(ErrorKind::Other, io::Error::from(ErrorKind::Interrupted));
+        }
         match self.os_code() {
             Some(code) => io::Error::from_raw_os_error(code),
             None => io::Error::new(self.to_io(), msg),
@@ -126,6 +134,7 @@ impl ErrKind {
             ErrKind::WouldBlock => ErrorKind::WouldBlock,
             ErrKind::ConnectionReset => ErrorKind::ConnectionReset,
             ErrKind::InvalidData => ErrorKind::InvalidData,
+            ErrKind::WrapsInterrupted => ErrorKind::Other,
             ErrKind::OsEagain | ErrKind::OsEio | ErrKind::OsEnospc | ErrKind::OsEisdir => {
                 io::Error::from_raw_os_error(self.os_code().unwrap()).kind()
             }
